@@ -15,6 +15,7 @@ pub mod peers;
 pub mod registry_tree;
 pub mod stream_ctl;
 pub mod svs;
+pub mod svs_async;
 pub mod ws_client;
 pub mod ws_common;
 pub mod ws_dispatch;
@@ -42,6 +43,7 @@ pub fn all() -> &'static [Family] {
         v.extend(ws_limits::families());
         v.extend(ws_client::families());
         v.extend(ws_dispatch::families());
+        v.extend(svs_async::families());
         v
     })
 }
